@@ -4,6 +4,12 @@ package core
 
 // Contracts for connection.go / message.go pools, read by the rcvc verifier in /verif (comment-only; adds no code).
 
+// the text of the peer address of a connection (net.Addr.String()), as a ghost field so that repeated calls agree
+//@ ghost field conn.raddr Str
+//@ func conn.RemoteAddr
+//@   flags trusted pure
+//@   ensures result == c.raddr
+
 //@ func conn.Fd
 //@   flags pure
 //@   ensures result == c.fd
